@@ -12,7 +12,7 @@ PROPERTY = "C06"
 BOUNDS = ("per class: Port (5 operators, names), Protocol (names / symbolic number), Option (flag/log token sets), Wildcard (12 masks), "
           "Address (17 forms x platform), AddressAg (native member spellings x platform, with sequence numbers), AddrGroup (1..3 "
           "members, numbered or not, indent 1/2/4), Remark (14 text shapes x sequence), Ace (the C01 covering array), AceGroup and "
-          "Acl (relation templates of <=4 lines, numbered or not, grouped or not, indent 1/2/4, extended and standard), config "
+          "Acl (relation templates of <=4 lines, numbered or not, grouped or not, indent 0/1/2/4, extended and standard), config "
           "functions acls()/addrgroups(); all numerals symbolic.  Strict one-step fixpoint text+data for text the library itself "
           "rendered; two-step text stability + unchanged meaning for foreign inputs.")
 ASSUMPTIONS = ["remark text is drawn from a vocabulary of shapes (characters are not symbolic)"]
@@ -160,8 +160,13 @@ AG_FORMS = {"ios": ["host", "subnet:24", "subnet:31", "subnet:8", "prefix:24", "
             "nxos": ["host", "prefix:24", "prefix:31", "prefix:0", "prefix:32", "wild:0.0.0.255", "wild:0.0.1.3", "wild:0.0.0.0"]}
 
 
+LAST_SEQ = [0]
+
+
 def _ag_member(ctx, platform, form, name, seq):
-    pre = (T.num(ctx.fresh(name + "seq", 1, 4294967295)) + " ") if seq else ""
+    sq = ctx.fresh(name + "seq", 1, 4294967295) if seq else 0
+    LAST_SEQ[0] = sq
+    pre = (T.num(sq) + " ") if seq else ""
     if form == "group-object":
         return pre + "group-object INNER"
     s, v = T.fresh_quad(ctx, name)
@@ -184,8 +189,10 @@ def h_address_ag(ctx):
     form = ctx.pick("form", AG_FORMS[platform])
     seq = ctx.pick("seq", [False, True]) if platform == "nxos" else False
     text = _ag_member(ctx, platform, form, "m", seq)
+    sq = LAST_SEQ[0]
     cl = Claims(ctx)
-    fixpoint(ctx, cl, lambda t: AddressAg(t, platform=platform, max_ncwb=30), text, "")
+    o1, o2 = fixpoint(ctx, cl, lambda t: AddressAg(t, platform=platform, max_ncwb=30), text, "")
+    cl("sequence-survives", V(o1.sequence) != V(sq))
     cl.done()
     ctx.reach("address_ag")
     return None
@@ -200,11 +207,16 @@ def h_addr_group(ctx):
     head = "object-group network GRP" if platform == "ios" else "object-group ip address GRP"
     txt = head
     fl = [f for f in AG_FORMS[platform] if f != "group-object"]
+    seqs = []
     for k, i in enumerate(forms):
         txt = txt + "\n" + indent + _ag_member(ctx, platform, fl[i % len(fl)], f"m{k}_", seq)
+        seqs.append(LAST_SEQ[0])
     cl = Claims(ctx)
     o1, o2 = fixpoint(ctx, cl, lambda t: AddrGroup(t, platform=platform, indent=indent), txt, "")
     cl("member-count", len(o1.items) != len(forms))
+    if len(o1.items) == len(forms):
+        for k, it in enumerate(o1.items):
+            cl(f"member-sequence-survives[{k}]", V(it.sequence) != V(seqs[k]))
     cl("indent-kept", o2.indent != indent)
     cl("name-kept", o2.name != "GRP")
     cl.done()
@@ -221,9 +233,11 @@ def h_remark(ctx):
     text = ctx.pick("text", REMARK_TEXTS)
     platform = ctx.pick("platform", ["ios", "nxos"])
     seq = ctx.pick("seq", [False, True])
-    line = (T.num(ctx.fresh("seq", 1, 4294967295)) + " " if seq else "") + "remark " + text
+    sq = ctx.fresh("seq", 1, 4294967295) if seq else 0
+    line = (T.num(sq) + " " if seq else "") + "remark " + text
     cl = Claims(ctx)
     o1, o2 = fixpoint(ctx, cl, lambda t: Remark(t, platform=platform), line, "")
+    cl("sequence-survives", V(o1.sequence) != V(sq))
     cl("text-kept", o1.text != " ".join(text.split()))
     cl.done()
     ctx.reach("remark")
@@ -255,7 +269,7 @@ def _acl_inputs(ctx):
     name, sel = ctx.pick("acl", ACLS)
     platform = ctx.pick("platform", ["ios", "nxos"])
     numbered = ctx.pick("numbered", [False, True])
-    indent = ctx.pick("indent", [" ", "  ", "    "])
+    indent = ctx.pick("indent", ["", " ", "  ", "    "])
     w = AG.World(ctx)
     specs = [AG.TEMPLATES[name][i] for i in sel]
     s0 = ctx.fresh("s0", 1, 4000000000) if numbered else 0
@@ -273,10 +287,38 @@ def h_acl(ctx):
     o1, o2 = fixpoint(ctx, cl, lambda t: Acl(t, **kw), txt, "")
     cl("name-kept", o2.name != "A1")
     cl("type-kept", o2.type != "extended")
-    cl("item-count", len(o1.line.split("\n")) != len(specs) + 1)
+    body = [l.split() for l in o1.line.split("\n")[1:]]
+    cl("item-count", len(body) != len(specs))
+    if len(body) == len(specs):
+        for k, toks in enumerate(body):
+            if seqs is None:
+                cl(f"no-number[{k}]", toks[0].isdigit())
+            else:
+                cl(f"sequence-survives[{k}]", Not_(toks[0] == T.num(seqs[k])))
+    cl("indent-kept", not all(l.startswith(indent) and not l[len(indent):].startswith(" ") for l in _raw_lines(o1.line)[1:]))
     cl.done()
     ctx.reach("acl")
     return None
+
+
+def _raw_lines(text):
+    """lines of a rendered text with their leading whitespace (dual mode)"""
+    out = []
+    for l in text.split("\n"):
+        out.append(l if type(l) is str else l)
+    return [_lead(l) for l in out]
+
+
+class _lead:
+    """leading-whitespace view of a str / SymStr line"""
+    def __init__(self, l):
+        self.first = l if type(l) is str else (l.parts[0] if type(l.parts[0]) is str else "")
+
+    def startswith(self, p):
+        return self.first.startswith(p)
+
+    def __getitem__(self, sl):
+        return self.first[sl]
 
 
 def h_ace_group(ctx):
@@ -286,6 +328,9 @@ def h_ace_group(ctx):
     cl = Claims(ctx)
     o1, o2 = fixpoint(ctx, cl, lambda t: AceGroup(t, platform=platform, port_nr=True), txt, "")
     cl("item-count", len(o1.items) != len(specs))
+    if len(o1.items) == len(specs):
+        for k, it in enumerate(o1.items):
+            cl(f"sequence-survives[{k}]", V(it.sequence) != V(0 if seqs is None else seqs[k]))
     cl.done()
     ctx.reach("ace_group")
     return None
@@ -365,7 +410,7 @@ def specs(tier, seed, concrete=False):
         Spec("addr_group", h_addr_group, [{"platform": p, "indent": i} for p in ("ios", "nxos") for i in (" ", "  ", "    ")], goals=["addr_group"], describe="AddrGroup"),
         Spec("remark", h_remark, [{"platform": p} for p in ("ios", "nxos")], goals=["remark"], describe="Remark text shapes"),
         Spec("ace", h_ace, rows, goals=["ace"], describe=f"Ace over a covering array {info}"),
-        Spec("acl", h_acl, [{"acl": a, "indent": i} for a in ACLS for i in (" ", "  ", "    ")], goals=["acl"], describe="Acl from relation templates"),
+        Spec("acl", h_acl, [{"acl": a, "indent": i} for a in ACLS for i in ("", " ", "  ", "    ")], goals=["acl"], describe="Acl from relation templates"),
         Spec("ace_group", h_ace_group, [{"acl": a} for a in ACLS], goals=["ace_group"], describe="AceGroup"),
         Spec("standard_acl", h_standard_acl, [{"lines": l} for l in STD_LINES], goals=["standard"], describe="standard ACLs"),
         Spec("config", h_config, [{"acl": a, "platform": p} for a in ACLS[::2] for p in ("ios", "nxos")], goals=["config"], describe="acls()/addrgroups()"),
